@@ -288,6 +288,7 @@ pub fn dispatch(kind: &str, f: &[&str]) -> Option<String> {
             probe(f[0])
         }
         "c09g" => {
+            assert!(ColorChoice::default() == ColorChoice::Auto, "ColorChoice::default()");
             choice_of(f[0]).write_global();
             name(ColorChoice::global()).to_owned()
         }
